@@ -21,7 +21,7 @@ import numpy as np
 
 from harness import common, gen
 
-MODULES = ['CirqVerif.Props.C15']
+MODULES = ['CirqVerif.Props.C15', 'CirqVerif.Props.C15Face']
 
 X = np.array([[0, 1], [1, 0]], dtype=complex)
 Y = np.array([[0, -1j], [1j, 0]], dtype=complex)
